@@ -2,6 +2,7 @@
 # try_mutation.sh <patch.diff> <prop>...   — applies the patch to /repo, runs the quick checks of the given
 # properties, restores /repo.  Prints the verdict lines.
 P=$1; shift
+rm -rf /tmp/evidence.bak && cp -r /verif/evidence /tmp/evidence.bak
 cd /repo && git checkout -q -- . && git apply $P || { echo "apply failed"; exit 2; }
 for prop in "$@"; do
   out=$(cd /verif && bin/check $prop 2>&1 | grep -E "^(VIOLATION|OK|KNOWN)" | cut -c1-220)
@@ -9,3 +10,5 @@ for prop in "$@"; do
 done
 cd /repo && git checkout -q -- . && git status --short | head -3
 /verif/tools/regen_generated.sh
+# evidence files must come from runs on the unchanged tree
+rm -rf /verif/evidence && cp -r /tmp/evidence.bak /verif/evidence
